@@ -108,6 +108,7 @@ func checkC03(p *Prog, l *Ledger) {
 	checkClosureWiring(cs, l, "C03/S2-scope-wiring")
 	checkNoDynamicScoping(p, l)
 	checkTreeLinks(p, l, "C03/S3-tree-links")
+	checkDeclarationBinding(cs, l, "C03/S2-scope-wiring/declaration")
 	// the function activation is one of the scopes: what Function.Call binds in it (own name, parameters by position) is
 	// decided by C04's rule and reported here under C03's name
 	if cs := getClauses(p); cs.account(l) {
@@ -591,4 +592,62 @@ func callResults(pi *pathInfo) []string {
 		return all
 	}
 	return out
+}
+
+// checkDeclarationBinding: a declaration binds its name to the value of *its own* initialiser, evaluated just before, or
+// to nil when it has none — in the single-name form and, per declarator, in the list form (which may hand each
+// declarator to the single-name clause or bind it itself).  A name bound first and initialised later (all names of a
+// list reserved before any initialiser runs) makes an initialiser that mentions the name, or a later one of the list,
+// see a placeholder instead of the binding of the enclosing scope.
+func checkDeclarationBinding(cs *clauseSet, l *Ledger, rule string) {
+	for _, t := range []string{"*ast.VarStmt", "*ast.VarListStmt"} {
+		m := cs.Clauses[t]
+		if m == nil {
+			continue
+		}
+		defs := 0
+		mon := Monitor{Init: "||", Step: func(s string, ev *Event) string {
+			ps := strings.SplitN(s, "|", 3) // nil-test outcome of this declarator | result name of its initialiser | defined?
+			switch ev.Op {
+			case "next":
+				return "||" // the next declarator of a list
+			case "niltest":
+				if strings.HasSuffix(ev.Args[0], "Initializer") {
+					return ev.Out + "|" + ps[1] + "|" + ps[2]
+				}
+			case "eval":
+				if strings.HasSuffix(ev.KV["child"], "Initializer") {
+					if ps[2] == "T" {
+						return "!an initialiser is evaluated after the name of its declarator has already been bound in this round: the initialiser sees the placeholder, not the enclosing binding"
+					}
+					return ps[0] + "|" + ev.KV["res"] + "|" + ps[2]
+				}
+				return s // the list form handing a declarator to the single-name clause
+			case "define":
+				defs++
+				if len(ev.Args) != 3 {
+					return s
+				}
+				v := ev.Args[2]
+				switch {
+				case v == "nil":
+					if ps[0] != "nil" {
+						return "!a name is bound to nil although its declarator was not found to lack an initialiser (bound first, initialised later?)"
+					}
+				case ps[1] != "" && v == ps[1]+".val":
+				default:
+					return "!a declaration binds its name to " + v + ", which is not the value of its initialiser evaluated just before"
+				}
+				return ps[0] + "|" + ps[1] + "|T"
+			}
+			return s
+		}}
+		ws := m.G.Run(mon)
+		for _, w := range ws {
+			l.Violate(rule, m.Scenario+"#binding", posOf(w), w.Msg, witnessDetail(w))
+		}
+		if len(ws) == 0 {
+			l.Discharge(rule, m.Scenario+"#binding", "", fmt.Sprintf("each name is bound to the value of its own initialiser evaluated just before, or to nil when it has none (%d binding events)", defs), defs > 0)
+		}
+	}
 }
